@@ -286,6 +286,9 @@ def selftest_family(ctx, fam, inputs, records, n=40):
                                  f'records of family {fam.name}, e.g. {canon(missed)[:800]}')
 
 
+RERUN = object()      # marker: replay by re-running the check and looking for the same violation key
+
+
 def main(pid, run, replay=None, argv=None):
     """Entry used by /verif/check.  run(ctx) performs the check; replay(ctx, scenario) re-runs one scenario."""
     import argparse
@@ -303,7 +306,14 @@ def main(pid, run, replay=None, argv=None):
             if replay is None:
                 print('replay not supported for this property', file=sys.stderr)
                 return 2
-            ok = replay(ctx, scen)
+            if replay is RERUN:
+                # scenarios of this check depend on a world built by the check itself: re-run the quick tier and look for the
+                # same violation key
+                ctx.tier = 'quick'
+                run(ctx)
+                ok = scen.get('key') not in [k for k, _, _ in ctx.violations]
+            else:
+                ok = replay(ctx, scen)
             print('REPLAY ' + ('passes (property holds on this scenario)' if ok else 'still violates'))
             return 0 if ok else 1
         from . import rebuild
